@@ -787,7 +787,7 @@ func (o *oracle) probe(s *sim, sp *runSpec, answered, ad bool) string {
 }
 
 // boot judges the trust set of a process that has started but not refreshed yet.
-func (o *oracle) boot(s *sim, tombUnreadable bool) string {
+func (o *oracle) boot(s *sim, tombUnreadable, stateUnreadable bool) string {
 	o.closed = map[int]bool{}
 	live := s.liveRefs()
 	if tombUnreadable && len(live) > 0 {
@@ -798,6 +798,11 @@ func (o *oracle) boot(s *sim, tombUnreadable bool) string {
 	}
 	for m := range o.durable {
 		if hasMat(live, m) && recordOf(s.obsState(), s.obsTomb(), m) {
+			if tb, _ := parseObsTomb(s.obsTomb()); stateUnreadable && !tb[m] {
+				// the StateRevoked marker is the only record and the state file could not be read:
+				// the known state-unreadable finding, met at process start
+				return fail("autota/state-unreadable/revoked-key-live-again", "at process start: material %d live=%s", m, joinRefs(live))
+			}
 			return fail("autota/process-start/revoked-key-trusted-before-first-refresh", "material %d live=%s", m, joinRefs(live))
 		}
 	}
